@@ -3,6 +3,8 @@ import ReplicatProofs.Lemmas.RetryPolicy
 Helper lemmas for C12: the whole call (`runUp`, `runDown`) for an arbitrary configuration that satisfies the soundness
 conditions.  `Properties/C12.lean` instantiates them with the extracted configuration `cfgOf b`.
 -/
+set_option linter.unusedSimpArgs false
+set_option linter.unusedVariables false
 namespace Replicat.Retry
 
 /-! ## classes of exceptions and the policy's answer to them -/
